@@ -129,9 +129,12 @@ func (b *Broadcaster[T]) Broadcast(value T) {
 func (b *Broadcaster[T]) Close() {
 	defer b.wg.Wait()
 	verifPoint("bcast.close.enter")
-	b.lock.Lock()
+	// Signal closure before taking the lock: a Broadcast that is blocked on a
+	// subscriber's full buffer holds the lock, and only closeCh can release it.
 	if b.closed.CompareAndSwap(false, true) {
 		close(b.closeCh)
 	}
-	b.lock.Unlock()
+	// Wait for any Broadcast or Subscribe still inside its critical section.
+	b.lock.Lock()
+	b.lock.Unlock() //nolint:staticcheck
 }
